@@ -100,8 +100,11 @@ func VerifC07Teardown() {
 		vAssert(closed == 1, "Close-returned")
 	}
 	mu.Unlock()
-	if b := vBlockedGo(); b >= 0 {
-		vAssert(b == 0, "monitor:no-goroutine-left-behind")
+	// none of the connection's own goroutines is left (a user goroutine that keeps sending after the
+	// disconnect may well be stuck on the queue: sends issued after DISCONNECTED are outside the claim)
+	if vPendingGoNamed("send") >= 0 {
+		left := vPendingGoNamed("send") + vPendingGoNamed("recv") + vPendingGoNamed("runLoop") + vPendingGoNamed("ping")
+		vAssert(left == 0, "monitor:no-goroutine-left-behind")
 	}
 	cancel()
 	vReach("end")
@@ -181,7 +184,18 @@ func VerifC07Reconnect() {
 		// the new connection is up and stays up although the old one's goroutines have all finished
 		vAssert(conn.Connected(), "new-connection-stays-up")
 		vAssert(wires[gen].closed == 0, "new-socket-not-closed-by-old-teardown")
-		vAssert(len(wires[gen].written) >= 2 && wires[gen].written[0] == "NICK me\r\n" && len(wires[gen].written[1]) > 5 && wires[gen].written[1][:5] == "USER ", "registration-reaches-the-new-socket")
+		// (registration is sent concurrently with the event loop: with tracking on, the MODE / WHO
+		// requests for the JOIN the new session brought may reach the socket first)
+		nickAt, userAt := -1, -1
+		for i, x := range wires[gen].written {
+			if x == "NICK me\r\n" && nickAt < 0 {
+				nickAt = i
+			}
+			if len(x) > 5 && x[:5] == "USER " && userAt < 0 {
+				userAt = i
+			}
+		}
+		vAssert(nickAt >= 0 && userAt > nickAt, "registration-reaches-the-new-socket")
 		if track {
 			vAssert(conn.st.GetChannel("#c") != nil, "tracker-follows-the-new-connection")
 		}
